@@ -16,7 +16,7 @@ CHECKS = {
     ref="DESIGN.md §5 C16"),
  "C10": dict(
     technique="Lean 4 proof (invariant over all op lists of the filler model M-FILL, carried through M-TREE to every enumerated shard after every history; roll-over test re-checked on a statement-order table generated from the source on every run) + differential correspondence of the real DatasetFiller on generated write sequences",
-    text="C10_shard_size_bounds, C10_never_close_fails, C10_nonlast_full_or_mdchange, C10_full_except_last, C10_sessions hold for every eps>=1 and every "
+    text="C10_shard_size_bounds, C10_never_close_fails, C10_nonlast_full_or_mdchange, C10_full_except_last, C10_sessions, C10_shard_count_is_ceiling (C10Count.lean: with constant shard metadata the N accepted examples of a split occupy exactly ceil(N/eps) shards) hold for every eps>=1 and every "
          "interleaving of splits, metadata values, rejected writes and sessions. M-FILL is tied to /repo by replaying the write outcomes observed on the "
          "real filler (fb/npz/tfrec) through the compiled Lean model and comparing the listing a fresh reader sees."
          ' System level (SedpackProps/C10System.lean): C10_enumerated_shards_in_bounds / C10_history_in_bounds carry the bound through M-TREE to every shard a reader enumerates after any history of filler sessions; C10Src.lean re-checks the roll-over test (>=, before the write) and the exit guard (only shards with at least one example are closed) against the statement order extracted from the current source on every run.',
